@@ -9,7 +9,7 @@ from symx.vloop import Script
 from .common import MC, P, TTL_FOREVER, RecTransport, loop_clean, new_loop, stub_uniform
 
 PROPERTY = "C10"
-BUDGET_S = {"quick": 900, "thorough": 3400}
+BUDGET_S = {"quick": 900, "thorough": 7200}
 STUBS = [
     "event loop: VirtualLoop (symbolic ticks; API calls and datagrams injected at solver-chosen instants and iterations)",
     "random.uniform: fresh symbolic tick count inside the requested window (initial delay, request-response delay)",
@@ -43,6 +43,8 @@ def cases(tier, seed):
                     for col in (0, 5):
                         if sc == "helper" and (r != 1 or ttl != 3):
                             continue
+                        if sc == "two-stop-find" and (r > 1 or ttl != 3):
+                            continue
                         if tier == "quick" and ttl == TTL_FOREVER and (r == 2 or sc in ("run", "stop-start")):
                             continue
                         out.append({"h": "H10", "scen": sc, "rep": r, "cyclic": cyc, "ttl": ttl, "collect": col, "_w": 2 + r + 2 * (sc in ("finduc-stop", "findmc-stop", "stop-start"))})
@@ -52,7 +54,9 @@ def cases(tier, seed):
 def h10(E, M, case):
     loop = new_loop(E)
     sd, cfg, hdr = M.sd, M.config, M.header
-    drawn = stub_uniform(E, M)
+    # with two instances only the first one's initial delay is symbolic (the second starts at 40 ms)
+    two = case["scen"] == "two-stop-find"
+    drawn = stub_uniform(E, M, fixed=(lambda lo, hi, n: 40 if (two and n == 2 and (lo, hi) == (0, 100)) else None))
     R, cyc, ttl, C = case["rep"], case["cyclic"], case["ttl"], case["collect"]
     tm = sd.Timings(INITIAL_DELAY_MIN=0.0, INITIAL_DELAY_MAX=0.1, REQUEST_RESPONSE_DELAY_MIN=0.01, REQUEST_RESPONSE_DELAY_MAX=0.05, REPETITIONS_MAX=R, REPETITIONS_BASE_DELAY=0.01, CYCLIC_OFFER_DELAY=cyc, ANNOUNCE_TTL=ttl, SEND_COLLECTION_TIMEOUT=C / 1000 if C else 0)
     prot = sd.ServiceDiscoveryProtocol(MC, timings=tm)
